@@ -2,20 +2,26 @@
 //
 // Space: for each schema of a small explicit list (schemas(), S1..S8: NOT NULL/VARCHAR[3] + unique index,
 // auto-increment, composite pk, CHECK, FLOAT unique (0.0 / -0.0), FLOAT pk, late index creation, column DDL)
-// ALL statement histories up to a depth (quick 4, thorough 5) over that schema's alphabet of 5..14 statements
+// ALL statement histories up to a depth (quick 4, thorough 5) over that schema's alphabet of 6..14 statements
 // whose values are chosen to collide, each history in every transaction mode:
 //
 //	auto        every statement autocommit;
 //	tx@k        the first k statements autocommit, the rest inside one BEGIN .. COMMIT   (k = 0 .. n-1);
 //	rollback@k  the same, ended by ROLLBACK.
 //
+// Bound: quick = histories of up to 4 statements (with 4 statements at most the last 2 inside the transaction),
+// thorough = up to 5 statements (with 5 statements at most the last 4 inside the transaction).
 // Iterative deepening on the history length n (level n is finished for every schema and mode before n+1).
-// Every case runs on a FRESH store + sql.Engine (real code of /repo) by replaying its history.
+// Every case runs on a FRESH store + sql.Engine (real code of /repo) by replaying its history; the harness reads
+// only committed state (own read-only transactions between autocommit statements, never inside the transaction
+// under test). Signatures: "<class> schema=<S> mode=<auto|tx@k|rollback@k> [cause=..] history=<compact history>".
 // Pruning (stated in the evidence): autocommit states are deduplicated by the raw latest-version content of the
 // catalog index and of every table index INCLUDING tombstones (failed / no-op statements leave it unchanged);
-// the representative of a state is the lexicographically least shortest history (deterministic); a history is not
-// extended after a violation, and a transaction is not extended after a failed statement (immudb cancels the
-// whole transaction on the first failing statement; later statements would run outside of it).
+// the representative of a state is the first history in (length, parent order, statement index) order
+// (deterministic); a history is not extended after a violation; a transaction is not extended after a failed
+// statement (immudb cancels the whole transaction on the first failing statement; later statements would run
+// outside of it) nor after a statement that touched no row (UPDATE/DELETE matching nothing, ON CONFLICT DO
+// NOTHING on an existing key: the engine reports no updated row and the reference model agrees).
 //
 // Oracle (only what the property states):
 //
@@ -24,11 +30,12 @@
 //	never flagged: immudb treats NULLs as equal, which is stricter); no NULL in NOT NULL columns; CHECK true
 //	(rows where it evaluates to NULL are skipped); values of the declared Go type, VARCHAR length <= declared;
 //	pk scan and unique index scans return the same multiset of rows; a generated auto-increment id is new and
-//	greater than every existing id;
+//	greater than every existing id (inside a transaction "existing" = the rows the reference model expects);
 //	a failing statement (autocommit) leaves the visible state (catalog shape + all scans) exactly as before; a
 //	failing statement inside a transaction, a failing COMMIT and a ROLLBACK leave the state of BEGIN;
 //	must-fail expectations from a tiny reference model (standard INSERT/UPSERT/UPDATE/DELETE semantics applied to
-//	the observed pre-state): a statement whose result would contain a duplicate pk (plain INSERT of an existing
+//	the observed pre-state; inside a transaction to the state observed at BEGIN, as long as every committed
+//	result of the parent histories equalled the model's): a statement whose result would contain a duplicate pk (plain INSERT of an existing
 //	pk), a unique clash among live rows, NULL in a NOT NULL column, a false CHECK, an over-long or wrongly typed
 //	value must fail. Reported only when the resulting state itself looks clean (otherwise the state invariant
 //	reports it). Nothing is ever required to succeed.
@@ -42,7 +49,6 @@ import (
 	"fmt"
 	"math"
 	"os"
-	"runtime/pprof"
 	"sort"
 	"strings"
 	"sync/atomic"
@@ -84,6 +90,7 @@ type op struct {
 	Uses    []string         // further columns the statement names
 	NotNull string           // ALTER COLUMN .. SET NOT NULL: the column declared NOT NULL on success
 	Auto    bool             // INSERT without id into an auto-increment table
+	Unique  bool             // CREATE UNIQUE INDEX
 }
 
 type schema struct {
@@ -288,7 +295,7 @@ func schemas() []*schema {
 		ins(kInsert, "id,u,v", i(2, 5, "b"), i(3, 5, "c")),
 		ins(kInsert, "id,u,v", i(3, 5, "c")),
 		del("D(id=1)", "DELETE FROM t WHERE id = 1", whereEq("id", int64(1)), "id"),
-		ddl("CREATE-UNIQUE(u)", uq),
+		{Name: "CREATE-UNIQUE(u)", SQL: uq, Kind: kDDL, Unique: true},
 		ddl("CREATE-INDEX(u)", "CREATE INDEX ON t(u)"),
 		ins(kUpsert, "id,u,v", i(1, 6, "a")),
 		upd("U(id=2:u=5)", "UPDATE t SET u = 5 WHERE id = 2", whereEq("id", int64(2)), setCol("u", int64(5)), "id", "u"),
@@ -370,10 +377,11 @@ type colInfo struct {
 }
 
 type catalog struct {
-	Cols []colInfo
-	PK   []string
-	Uniq [][]string
-	IDs  []uint32 // index ids (raw dump)
+	Cols    []colInfo
+	PK      []string
+	Uniq    [][]string
+	IDs     []uint32 // all index ids (raw dump)
+	UniqIDs []uint32 // parallel to Uniq
 }
 
 func (ct *catalog) col(name string) *colInfo {
@@ -413,6 +421,7 @@ func catalogOf(cat *sql.Catalog) *catalog {
 			ct.PK = names
 		} else if ix.IsUnique() {
 			ct.Uniq = append(ct.Uniq, names)
+			ct.UniqIDs = append(ct.UniqIDs, ix.ID())
 		}
 	}
 	return ct
@@ -594,7 +603,7 @@ func checkRows(s *schema, ct *catalog, rows []row, notNull map[string]bool) (out
 	for i, r := range rows {
 		for j := 0; j < i; j++ {
 			if len(ct.PK) > 0 && sameOn(r, rows[j], ct.PK) {
-				out = append(out, finding{"pk-duplicate", "", fmt.Sprintf("rows %s and %s have the same primary key %v", fmtRow(ct, rows[j]), fmtRow(ct, r), ct.PK)})
+				out = append(out, finding{"pk-duplicate", map[bool]string{true: "cause=signed-zero", false: "cause=other"}[zeroFloat(r, ct.PK)], fmt.Sprintf("rows %s and %s have the same primary key %v", fmtRow(ct, rows[j]), fmtRow(ct, r), ct.PK)})
 			}
 			for _, u := range ct.Uniq {
 				if sameOn(r, rows[j], u) {
@@ -748,6 +757,7 @@ type caseID struct {
 	Path   []int  `json:"path"`
 	Split  int    `json:"split"` // statements [0,Split) autocommit, [Split,n) in one transaction; Split==n: all autocommit
 	End    string `json:"end"`   // auto | commit | rollback
+	Model  bool   `json:"model"` // tx cases: the reference model followed the parent history (must-fail expectations apply)
 }
 
 func (s *schema) history(path []int) string {
@@ -779,8 +789,8 @@ type result struct {
 
 var nModelDiverged, nMustFailSeen, nFailedStmts, nReplayMismatch int64
 
-func runCase(s *schema, id caseID, trusted bool) (res result) {
-	path := id.Path
+func runCase(s *schema, id caseID) (res result) {
+	path, trusted := id.Path, id.Model
 	n := len(path)
 	last := &s.Ops[path[n-1]]
 	d := openDB(s)
@@ -830,11 +840,11 @@ func runCase(s *schema, id caseID, trusted bool) (res result) {
 			}
 			seen[f.Class] = true
 			if f.Class == "unique-duplicate" {
-				inTxDDL := false
+				inTxIndex := false // CREATE UNIQUE INDEX inside the transaction under test
 				for _, p := range path[min(id.Split, n):] {
-					inTxDDL = inTxDDL || s.Ops[p].Kind == kDDL
+					inTxIndex = inTxIndex || s.Ops[p].Unique
 				}
-				f.Extra = "cause=" + d.dupCause(o, last, inTxDDL)
+				f.Extra = "cause=" + dupCause(s, id, d, o, last, inTxIndex)
 			}
 			violate(f.Class, f.Extra, f.Detail+"\nstate: "+o.String())
 		}
@@ -1011,58 +1021,63 @@ func runCase(s *schema, id caseID, trusted bool) (res result) {
 }
 
 // dupCause classifies a unique duplicate for the signature (evidence only; the violation is the duplicate).
-func (d *db) dupCause(o *obs, last *op, inTxDDL bool) string {
+func dupCause(s *schema, id caseID, d *db, o *obs, last *op, inTxIndex bool) string {
 	for i, r := range o.Rows {
 		for j := 0; j < i; j++ {
 			for _, u := range o.Cat.Uniq {
-				if sameOn(r, o.Rows[j], u) {
-					for _, cl := range u {
-						a, aok := r[cl].(float64)
-						b, bok := o.Rows[j][cl].(float64)
-						if aok && bok && a == 0 && b == 0 { // 0.0 / -0.0 compare equal but are different keys
-							return "signed-zero"
-						}
-					}
+				if sameOn(r, o.Rows[j], u) && zeroFloat(r, u) {
+					return "signed-zero" // 0.0 / -0.0 compare equal but are different index keys
 				}
 			}
 		}
 	}
-	if inTxDDL {
+	if inTxIndex {
 		return "index-created-in-same-transaction"
 	}
-	if last.Kind == kDDL {
+	if last.Unique {
 		return "index-created-over-duplicates"
 	}
-	// fixed-width (INTEGER/FLOAT) index columns: 9 bytes each; is the first entry of a duplicated value a tombstone?
-	_, raw := d.rawState(o.Cat)
-	t, _ := d.e.Catalog(ctx, nil)
-	tab, _ := t.GetTableByName("t")
-	for _, ix := range tab.GetIndexes() {
-		if ix.IsPrimary() || !ix.IsUnique() {
-			continue
-		}
-		w := 9 * len(ix.Cols())
+	// Was the first raw entry of the duplicated value a tombstone when the last statement (auto) / the transaction
+	// (tx) started? Fixed-width INTEGER/FLOAT index columns: 9 key bytes each. Uses a second replay of the prefix.
+	_, post := d.rawState(o.Cat)
+	p := openDB(s)
+	defer p.close()
+	m := len(id.Path) - 1
+	if id.End != "auto" {
+		m = id.Split
+	}
+	for _, k := range id.Path[:m] {
+		p.exec(s.Ops[k].SQL)
+	}
+	_, pre := p.rawState(p.observe().Cat)
+	for i, ix := range o.Cat.UniqIDs {
+		w := 9 * len(o.Cat.Uniq[i])
 		live := map[string]int{}
-		firstDeleted := map[string]bool{}
-		for _, e := range raw[ix.ID()] {
-			if len(e.Key) < w {
-				continue
-			}
-			v := e.Key[:w]
-			if _, ok := firstDeleted[v]; !ok {
-				firstDeleted[v] = e.Deleted
-			}
-			if !e.Deleted {
-				live[v]++
+		for _, e := range post[ix] {
+			if !e.Deleted && len(e.Key) >= w {
+				live[e.Key[:w]]++
 			}
 		}
-		for v, n := range live {
-			if n > 1 && firstDeleted[v] {
-				return "deleted-entry-first"
+		first := map[string]bool{}
+		for _, e := range pre[ix] {
+			if len(e.Key) >= w && !first[e.Key[:w]] {
+				first[e.Key[:w]] = true
+				if e.Deleted && live[e.Key[:w]] > 1 {
+					return "deleted-entry-first"
+				}
 			}
 		}
 	}
 	return "other"
+}
+
+func zeroFloat(r row, cols []string) bool {
+	for _, cl := range cols {
+		if f, ok := r[cl].(float64); ok && f == 0 {
+			return true
+		}
+	}
+	return false
 }
 
 // ---------------------------------------------------------------- exploration
@@ -1074,22 +1089,10 @@ type node struct {
 	Trusted bool
 }
 
-func b2i(b bool) int {
-	if b {
-		return 1
-	}
-	return 0
-}
-
 func ext(path []int, op int) []int { return append(append(make([]int, 0, len(path)+1), path...), op) }
 
 func main() {
 	c = lib.New("C12", "model_checking", 100*time.Second, 25*time.Minute)
-	if pf := os.Getenv("C12_PROF"); pf != "" {
-		f, _ := os.Create(pf)
-		pprof.StartCPUProfile(f)
-		time.AfterFunc(25*time.Second, pprof.StopCPUProfile)
-	}
 	c.Assume("sequential part only: one session, no concurrent transactions (the concurrent-sessions phase is a separate exploration)")
 	c.Assume("one table per store; values from 2-3 element colliding domains; no temporal queries, no restart between statements")
 	c.Assume("state deduplication assumes that the future of a committed state depends only on the latest version (incl. tombstones) of every catalog/index entry, not on transaction ids or older revisions")
@@ -1106,14 +1109,14 @@ func main() {
 			fmt.Fprintln(os.Stderr, "bad replay case")
 			os.Exit(2)
 		}
-		runCase(s, id, true)
+		runCase(s, id)
 		c.AddEvals(1)
 		c.AddStates(1, 1)
 		c.Finish("replay of one recorded history", false)
 	}
-	// quick: histories of up to 4 statements, at depth 4 at most the last 2 inside the transaction;
-	// thorough: up to 5 statements, at depth 5 at most the last 4 inside the transaction.
-	maxDepth, maxTx := 4, func(n int) int { return map[int]int{4: 2}[n] + n*b2i(n < 4) }
+	// quick: histories of up to 4 statements; with 4 statements at most the last 2 are inside the transaction;
+	// thorough: up to 5 statements; with 5 statements at most the last 4 are inside the transaction.
+	maxDepth, maxTx := 4, func(n int) int { return map[bool]int{true: n, false: 2}[n < 4] }
 	if c.Thorough() {
 		maxDepth, maxTx = 5, func(n int) int { return min(n, 4) }
 	}
@@ -1147,7 +1150,7 @@ func explore(all []*schema, maxDepth int, maxTx func(n int) int) {
 	}
 	c.Set("schemas_and_alphabets", alpha)
 	c.Set("depth_target", maxDepth)
-	var states, cases, noops int64
+	var states, noops int64
 	perMode := map[string]int64{}
 	for n := 1; n <= maxDepth && !c.Expired(); n++ {
 		type job struct {
@@ -1177,17 +1180,18 @@ func explore(all []*schema, maxDepth int, maxTx func(n int) int) {
 				expired.Store(true)
 				return
 			}
-			id := caseID{j.S.Name, j.Path, j.Split, "auto"}
+			id := caseID{j.S.Name, j.Path, j.Split, "auto", j.Trusted}
 			if j.Split == len(j.Path) {
-				j.res = runCase(j.S, id, true)
+				j.res = runCase(j.S, id)
 				c.Eval(j.S.Name + " auto " + fmt.Sprint(j.Path))
 			} else {
 				id.End = "commit"
-				j.res = runCase(j.S, id, j.Trusted)
+				j.res = runCase(j.S, id)
 				c.Eval(j.S.Name + " " + id.mode() + " " + fmt.Sprint(j.Path))
 				if j.res.StmtOK && !j.res.Mismatch { // a failed last statement has cancelled the tx: nothing to roll back
-					id.End = "rollback"
-					j.resRb = runCase(j.S, id, false)
+					id.End, id.Model = "rollback", false
+					j.resRb = runCase(j.S, id)
+					j.resRb.Mismatch = j.resRb.Mismatch || !j.resRb.StmtOK // the same statements succeeded in the commit run
 					c.Eval(j.S.Name + " " + id.mode() + " " + fmt.Sprint(j.Path))
 				}
 			}
@@ -1199,7 +1203,6 @@ func explore(all []*schema, maxDepth int, maxTx func(n int) int) {
 				complete = false
 				continue
 			}
-			cases++
 			if j.res.Mismatch || j.resRb.Mismatch {
 				atomic.AddInt64(&nReplayMismatch, 1)
 				continue
@@ -1212,14 +1215,13 @@ func explore(all []*schema, maxDepth int, maxTx func(n int) int) {
 				seen[j.S.Name+j.res.Key] = true
 				states++
 				auto[n] = append(auto[n], j.node)
-				if n == maxDepth {
+				if n == maxDepth && len(auto[n])%100 == 1 {
 					c.Sample(map[string]any{"schema": j.S.Name, "mode": "auto", "history": j.S.history(j.Path)})
 				}
 			} else {
 				perMode["tx"]++
 				if j.res.StmtOK {
 					perMode["rollback"]++
-					cases++
 				}
 				if j.res.NoOp {
 					noops++
@@ -1228,6 +1230,9 @@ func explore(all []*schema, maxDepth int, maxTx func(n int) int) {
 					nd := j.node
 					nd.Trusted = j.res.Trusted
 					txf[n] = append(txf[n], nd)
+					if n == maxDepth && len(txf[n])%1000 == 1 {
+						c.Sample(map[string]any{"schema": j.S.Name, "mode": fmt.Sprintf("tx@%d and rollback@%d", j.Split, j.Split), "history": j.S.history(j.Path)})
+					}
 				}
 			}
 		}
@@ -1245,7 +1250,7 @@ func explore(all []*schema, maxDepth int, maxTx func(n int) int) {
 		}
 		c.Set("depth_completed", n)
 	}
-	c.AddStates(states, cases)
+	c.AddStates(states, c.Evals())
 	c.Set("cases_per_mode", perMode)
 	c.Set("tx_histories_not_extended_after_noop_statement", noops)
 }
